@@ -756,6 +756,7 @@ def gen_dag_model(draw, ncells=(4, 7), items=True, uncached=True, none_points=Fa
     emit(["set_ref", [], "g0", ["v", draw(small_int())], None])
     emit(["set_ref", ["S0"], "r0", ["v", draw(small_int())], None])
     n = draw(st.integers(*ncells))
+    chainy = draw(st.integers(0, 2)) == 0
     cells = []
     for k in range(n):
         p = draw(st.sampled_from(paths)) if k < n - 1 else ["S0"]
@@ -765,6 +766,9 @@ def gen_dag_model(draw, ncells=(4, 7), items=True, uncached=True, none_points=Fa
         terms = [["failx", "F%d_" % k, "x" if nparams else None]]
         lower = cells[:]
         ncall = draw(st.integers(1, 3)) if lower else 0
+        if chainy and lower:
+            lower = cells[-1:]          # a pure chain: d<k> calls only d<k-1>
+            ncall = 1
         for _ in range(ncall):
             q, cn, cnp = draw(st.sampled_from(lower))
             args = []
